@@ -28,7 +28,8 @@
  *   the signature; accepted iff the magic is "KSIPUBLF", the records tile the input exactly, the final phase
  *   is 3 and the signature bytes are non-empty and parse (model outcome);
  *   signedDataLength = 8 + total size of the records before the signature record.
- *   One deviation is checked separately (FINDINGS.md): a REPEATED header record flagged non-critical. */
+ *   (A repeated header is refused whatever its non-critical flag says - the snapshot of libksi ignored it when it
+ *   was flagged non-critical; fixed in /repo by b52f8bb, see MUTATIONS.md.) */
 #include "verif.h"
 #include "internal.h"
 #include "impl/publicationsfile_impl.h"
@@ -142,8 +143,7 @@ static void run_case(KSI_CTX *ctx, const struct c18_case *c, unsigned ci) {
 		switch (c->kind[i]) {
 			case 1:
 				if (phase == 0) phase = 1;
-				else if (nfl[i]) dup_nc_header = 1;                /* separately checked deviation */
-				else bad = 1;
+				else { bad = 1; if (nfl[i]) dup_nc_header = 1; }   /* a second header is never tolerated, not even as "non-critical" */
 				break;
 			case 2: if (phase == 1) ncert++; else bad = 1; break;
 			case 3: if (phase == 1 || phase == 2) { phase = 2; npub++; } else bad = 1; break;
@@ -159,7 +159,7 @@ static void run_case(KSI_CTX *ctx, const struct c18_case *c, unsigned ci) {
 	int res = KSI_PublicationsFile_parse(ctx, raw, total, &pf);
 	const int der_ok = (VERIF_pki_sig_der_ok == 1);            /* the model's choice, if it was asked */
 
-	if (!dup_nc_header) {
+	{
 		if (!structure_ok) {
 			CHECK(res != KSI_OK && pf == NULL, "C18.H1 a file that is not magic + header, certificates*, publications*, signature (unknown non-critical records tolerated, nothing after the signature, exact tiling) is refused");
 #ifdef W_BADSEQ
@@ -177,12 +177,13 @@ static void run_case(KSI_CTX *ctx, const struct c18_case *c, unsigned ci) {
 			CHECK(VERIF_pki_sig_new_calls == 1, "C18.H1 the signature bytes are handed to the PKI layer exactly once");
 			CHECK((res == KSI_OK) == der_ok, "C18.H1 a well-structured file is accepted iff its signature bytes parse");
 		}
-	} else {
-		CHECK(res != KSI_OK, "C18.H1 a repeated header record is refused even when it is flagged non-critical");
+#ifdef W_DUP
+		if (dup_nc_header && magic_ok) WITNESS_POINT("repeated header flagged non-critical refused");
+#endif
 	}
 	if (res == KSI_OK) {
 		CHECK(pf != NULL && magic_ok, "C18.H1 acceptance yields a file object and implies the magic KSIPUBLF");
-		if (pf != NULL && !dup_nc_header) {
+		if (pf != NULL) {
 			size_t sdl = 0; unsigned exp_sdl = 8;
 			for (unsigned i = 0; i < MAXREC; i++) if (i < sig_idx && (int)i < c->n) exp_sdl += size[i];
 			CHECK(KSI_PublicationsFile_getSignedDataLength(pf, &sdl) == KSI_OK && sdl == exp_sdl && exp_sdl == 8 + off[sig_idx < MAXREC ? sig_idx : 0],
